@@ -19,7 +19,7 @@ THEOREMS = ["C08_invariant_reachable", "C08_sym", "C08_fill_order", "C08_degree_
             "C08_script_deliveries"]
 QUICK_N = 6000; THOROUGH_N = 150000
 CLAIM = dict(
-    text="Machine-checked (Coq 8.16, axiom-free) for EVERY gate declaration and EVERY sequence of connect calls (any order, orientation, channels, duplicates, rejected calls) on a function-by-function model of gate.rs connect/next_hop/PathIter, events.rs handle_with_sink and ctx.rs buf_send_at: the slot tables stay symmetric (g.slot i = (h,j) implies h.slot j = (g,i), same channel), slot 1 is used only after slot 0, a gate has at most two distinct peers, established connections are never overwritten and a third peer is rejected in either orientation; a.connect(b) and b.connect(a) yield the same table and a repeated connect is a no-op; the walk from any non-transit gate terminates within fuel 2*|gates|+1 (injective step + no predecessor of the start state, pigeonhole); path_iter from the far end is the exact mirror image (gates and channels reversed); a message sent on a non-transit gate yields exactly one delivery, to the owner of the far-end gate, at send time + sum of the per-hop channel latencies, with header sender/receiver/last_gate as specified, and the same total delay in the opposite direction. The model is tied to the des crate by differential runs (extracted model vs real Sim/Gate/Channel/send_at on generated scripts: chains of 1..12 hops over 1..6 modules and clusters, all permutations x orientations for <= 5 hops in the thorough tier, immediate/delayed sends, both directions) plus an independent monitor that states C08 on the implementation's output alone.",
+    text="Machine-checked (Coq 8.16, axiom-free) for EVERY gate declaration and EVERY sequence of connect calls (any order, orientation, channels, duplicates, rejected calls) on a function-by-function model of gate.rs connect/next_hop/PathIter, events.rs handle_with_sink and ctx.rs buf_send_at: the slot tables stay symmetric (g.slot i = (h,j) implies h.slot j = (g,i), same channel), slot 1 is used only after slot 0, a gate has at most two distinct peers, established connections are never overwritten and a third peer is rejected in either orientation; a.connect(b) and b.connect(a) yield the same table and a repeated connect is a no-op; the walk from any non-transit gate terminates within fuel 2*|gates|+1 (injective step + no predecessor of the start state, pigeonhole); path_iter from the far end is the exact mirror image (gates and channels reversed); a message sent on a non-transit gate yields exactly one delivery, to the owner of the far-end gate, at send time + sum of the per-hop channel latencies, with header sender/receiver/last_gate as specified (for ANY header the message object carried before: the sender is the module that performed this send), and the same total delay in the opposite direction; for a relayed message object (echoed back or forwarded onto another chain by the receiving module, up to a hop budget) every leg's header names that leg's sender and receiver. The model is tied to the des crate by differential runs (extracted model vs real Sim/Gate/Channel/send_at on generated scripts: chains of 1..12 hops over 1..6 modules and clusters, all permutations x orientations for <= 5 hops in the thorough tier, immediate/delayed sends, both directions, forwarding rules that re-send the received Message object) plus an independent monitor that states C08 on the implementation's output alone.",
     note="Trusted: Coq kernel; extraction (ExtrOcamlBasic only) cross-checked in-Coq by vm_compute on a sample each run; harness/generator quality bounds the tie to the code. Channels are latency-only (bitrate 0, jitter 0) so a hop delay is exactly its latency; busy/queueing channels are C07, inactive owners C09. Observed and modelled, outside the property text: the full-gate assert of connect fires while both gate mutexes are held, so a caught third-peer panic poisons both gates (every later kind/path_iter/connect on them panics, and connect(x, poisoned) poisons x as well).",
     technique="Coq invariant proof over all connect sequences (Sym/Fill/NoSelf/Distinct), NoDup pigeonhole termination, path reversal lemma + differential correspondence check",
     design="6/C08")
